@@ -204,12 +204,37 @@ Definition res_eqb (a b : outcome lit_result) : bool :=
 
 Definition is_neg_text (s : bytes) : bool := match s with c :: _ => c =? c_minus | [] => false end.
 
+(* stripDecimalLeadingZeros (cte/parser.go, fixes 601f9e0 and 6b24587): after an
+   optional sign, a zero is dropped together with the separators that follow it
+   as long as a decimal digit comes next, so that the base-0 modes of strconv /
+   math/big do not read "010" or "0_10" as octal.  A zero followed by anything
+   else ("0x..", "0") stays. *)
+Fixpoint digit_after_us (s : bytes) : bool :=
+  match s with
+  | c :: r => if is_us c then digit_after_us r else is_dec c
+  | [] => false
+  end.
+(* [skipping]: the separators behind a dropped zero are being skipped *)
+Fixpoint drop0x (skipping : bool) (s : bytes) : bytes :=
+  match s with
+  | [] => []
+  | c :: r => if skipping && is_us c then drop0x true r
+              else if (c =? 48) && digit_after_us r then drop0x true r
+              else s
+  end.
+Definition drop0 (s : bytes) : bytes := drop0x false s.
+Definition strip_dec_lead0 (s : bytes) : bytes :=
+  match s with
+  | c :: r => if (c =? c_minus) || (c =? c_plus) then c :: drop0 r else drop0 s
+  | [] => []
+  end.
+
 (* ------------------------------------------------------------------ *)
 (* ExitValueInt                                                         *)
 (* ------------------------------------------------------------------ *)
 
 Definition impl_int (text : bytes) : outcome lit_result :=
-  let str := strip_us text in
+  let str := strip_dec_lead0 (strip_us text) in
   match str with
   | [] => Err                                     (* str[0]: index out of range *)
   | _ =>
@@ -231,17 +256,26 @@ Definition impl_int (text : bytes) : outcome lit_result :=
 Definition le_bits (bits : N) (v : N) : bytes := le_encode (N.to_nat (bits / 8)) v.
 Definition twos (bits : N) (z : Z) : N := Z.to_N (z mod 2 ^ Z.of_N bits).
 
-Definition impl_int_elem (base bits : N) (text : bytes) : outcome bytes :=
+Definition parse_int_elem (base bits : N) (text : bytes) : outcome bytes :=
   match go_parse_int text base bits with
   | Some z => Ok (le_bits bits (twos bits z))
   | None => Err
   end.
 
-Definition impl_uint_elem (base bits : N) (text : bytes) : outcome bytes :=
+Definition parse_uint_elem (base bits : N) (text : bytes) : outcome bytes :=
   match go_parse_uint text base bits with
   | Some n => Ok (le_bits bits n)
   | None => Err
   end.
+
+(* in an implicit-base array the text first goes through stripDecimalLeadingZeros
+   (the separators are still in it) *)
+Definition elem_text (base : N) (text : bytes) : bytes :=
+  if base =? 0 then strip_dec_lead0 text else text.
+Definition impl_int_elem (base bits : N) (text : bytes) : outcome bytes :=
+  parse_int_elem base bits (elem_text base text).
+Definition impl_uint_elem (base bits : N) (text : bytes) : outcome bytes :=
+  parse_uint_elem base bits (elem_text base text).
 
 Fixpoint concat_outcomes (l : list (outcome bytes)) : outcome bytes :=
   match l with
@@ -325,6 +359,25 @@ Definition leading_zero_dec (l : int_lit) : bool :=
 Definition max_us (d : dseq) : nat := fold_right (fun p m => Nat.max (fst p) m) O (d_rest d).
 Definition no_us (d : dseq) : bool := Nat.eqb (max_us d) 0.
 Definition single_us (d : dseq) : bool := Nat.leb (max_us d) 1.
+
+(* what stripDecimalLeadingZeros leaves of a decimal digit sequence: the leading
+   zeros are gone, together with the separators behind them *)
+Fixpoint strip0 (first : N) (rest : list (nat * N)) : dseq :=
+  match rest with
+  | (_, c) :: r => if first =? 48 then strip0 c r else {| d_first := first; d_rest := rest |}
+  | [] => {| d_first := first; d_rest := rest |}
+  end.
+Definition strip0_lit (l : int_lit) : int_lit :=
+  match i_base l with
+  | B10 => {| i_neg := i_neg l; i_base := B10; i_upper := i_upper l;
+              i_digits := strip0 (d_first (i_digits l)) (d_rest (i_digits l)) |}
+  | _ => l
+  end.
+(* the remaining defect class in implicit-base arrays: repeated separators
+   behind the first significant digit (those behind leading zeros are dropped) *)
+Definition single_us_elem (l : int_lit) : bool := single_us (i_digits (strip0_lit l)).
+(* kept for the developments that mention it: never true any more *)
+Definition leading_zero_sep (l : int_lit) : bool := leading_zero_dec (strip0_lit l).
 
 (* ------------------------------------------------------------------ *)
 (* Float spellings as the Go parsers read them                          *)
@@ -771,10 +824,11 @@ Definition escape_char (c : N) : option N :=
   else if c =? 95 then Some 160      (* no-break space *)
   else None.
 
-(* ExitCodepointContents: ParseUint(hex, 16, 32), rune(v), WriteRune *)
+(* ExitCodepointContents / parseHexCodepoint: ParseUint(hex, 16, 32), surrogates and
+   values above U+10FFFF rejected, rune(v), WriteRune *)
 Definition impl_codepoint (hex : bytes) : outcome bytes :=
   match go_parse_uint hex 16 32 with
-  | Some v => Ok (utf8_enc v)
+  | Some v => if valid_scalar v then Ok (utf8_enc v) else Err   (* fix 9d7e9c8 *)
   | None => Err
   end.
 
